@@ -610,19 +610,34 @@ def run_file(res, origin, raw, desc, rng, per_file):
         by = {}
         for e in edits:
             by.setdefault(e.cls, []).append(e)
-        chosen = []
+        chosen, rest = [], []
         for cls, lst in by.items():
             rng.shuffle(lst)
-            chosen.extend(lst[:max(3, per_file * len(lst) // len(edits))])
-        edits = chosen[:per_file + 40]
+            take = lst[:max(3, per_file * len(lst) // len(edits))]
+            chosen.extend(take[:3])           # (three of every class come first, so the cut below never loses a class)
+            rest.extend(take[3:])
+        edits = chosen + rest[:max(0, per_file + 40 - len(chosen))]
+    # a class represented by one or two edits only meets all three situations by being run again
+    per_cls = {}
     for e in edits:
+        per_cls.setdefault(e.cls, []).append(e)
+    for cls, lst in per_cls.items():
+        for extra in range(3 - len(lst)):
+            edits.append(lst[extra % len(lst)])
+    nth_of_class = {}
+    for e in edits:
+        # what happens around the edit (was the object saved before? looked at? is it saved before anyone looks again?) goes by the
+        # edit's number within its class, so that every class meets every situation - the first one of each class: neither saved
+        # nor looked at before, saved first afterwards
+        k_cls = nth_of_class.get(e.cls, 0)
+        nth_of_class[e.cls] = k_cls + 1
         res.count("triples")
         res.hist("triples_by_class", e.cls)
         res.seen("attributes", snapshot.field_key(e.path))
         case = dict(desc, origin=origin, path=e.path, new_value=repr(e.value)[:200])
         res.case((origin, e.path, repr(e.value)))
         o = workload.load(raw)
-        if rng.random() < 0.3:
+        if k_cls % 3 == 1:
             o.read()  # the object has already been saved once since it was loaded
             res.count("saved_once_before_edit")
         S0_case = S0
@@ -637,7 +652,7 @@ def run_file(res, origin, raw, desc, rng, per_file):
             except Exception:
                 o = workload.load(raw)
                 S0_case = S0
-        if rng.random() < 0.25:
+        if k_cls % 4 == 3:
             # the application looks at what it loaded first (play-order view, tabular views, printing): looking is not touching
             workload.look_at(o)
             res.count("edits_after_looking_at_the_loaded_object")
@@ -653,7 +668,7 @@ def run_file(res, origin, raw, desc, rng, per_file):
             continue
         # Half of the cases save FIRST and look at the object afterwards: reading the object before the save
         # (as a snapshot does) can refresh lazily cached state and hide a replay of stale bytes.
-        save_first = rng.random() < 0.5
+        save_first = k_cls % 2 == 0
         raw_first = None
         if save_first:
             monitors.PURITY_ENABLED = False
